@@ -1,12 +1,799 @@
-// Package c07 checks property C07 (not built yet).
+// Package c07 checks property C07: getelementptr result types are computed
+// correctly (LLVM's type) and consistently by every implementation in the
+// library.
+//
+// (S) spec/Types.tla GepResultType + spec/TypesGep.tla (shape invariants of
+// the required function, counterexamples for the walker as implemented).
+// (G) TLC enumerates element type x base x index list with the required
+// result type; each case is rendered as instruction, constant expression and
+// alias (renderer independent of the library), llvm-as confirms that the
+// result can be used at the required type (which validates the specification
+// against LLVM), and seven observation points of the library are compared
+// with the required type:
+//
+//	asm.inst                  type the parser attaches to the instruction
+//	ir.inst(parsed)           type ir recomputes on the parsed instruction
+//	ir.NewGetElementPtr       instruction constructor
+//	asm.cexpr                 constant expression read by the parser
+//	constant.NewGetElementPtr constant-expression constructor
+//	asm.alias                 type-only path used for alias address spaces
+//	gep.ResultType            the shared walker, called directly
 package c07
 
 import (
+	"fmt"
+	"io"
+	"log"
+	"math/rand"
+	"path/filepath"
+	"sort"
+	"strings"
+	"time"
+
+	"github.com/llir/llvm/asm"
+	"github.com/llir/llvm/ir"
+	"github.com/llir/llvm/ir/constant"
+	"github.com/llir/llvm/ir/types"
+	"github.com/llir/llvm/ir/value"
+	"github.com/llir/llvm/verifshim"
+
+	"verif/harness/llvmoracle"
 	"verif/harness/mbt"
 	"verif/harness/props/reg"
+	"verif/harness/props/tyutil"
 )
 
 func init() { reg.Register("C07", Run) }
 
+type idx struct {
+	F   string `json:"f"`
+	W   int    `json:"w"`
+	Val int    `json:"val"`
+	Vec int    `json:"vec"`
+	SC  bool   `json:"sc"`
+	IR  bool   `json:"ir"`
+}
+
+type gcase struct {
+	Defs map[string]*tyutil.Body `json:"defs,omitempty"`
+	Elem *tyutil.Term            `json:"elem,omitempty"`
+	Base *tyutil.Term            `json:"base,omitempty"`
+	Idxs []idx                   `json:"idxs"`
+	Want *tyutil.Term            `json:"want,omitempty"`
+}
+
+var impls = []string{"asm.inst", "ir.inst(parsed)", "ir.NewGetElementPtr", "asm.cexpr", "constant.NewGetElementPtr", "asm.alias", "gep.ResultType"}
+
+// --- rendering (independent of the library's printer) -------------------------
+
+func (ix idx) typ() *tyutil.Term {
+	t := tyutil.Int(ix.W)
+	if ix.Vec > 0 {
+		return tyutil.Vec(ix.SC, ix.Vec, t)
+	}
+	return t
+}
+
+// text renders index k (0-based) as "type value".
+func (ix idx) text(k int) string {
+	ty := ix.typ().LL()
+	el := fmt.Sprintf("i%d", ix.W)
+	var v string
+	switch ix.F {
+	case "int":
+		if ix.W == 1 {
+			v = map[int]string{0: "false", 1: "true"}[ix.Val]
+		} else {
+			v = fmt.Sprint(ix.Val)
+		}
+	case "zeroinit":
+		v = "zeroinitializer"
+	case "undef", "poison":
+		v = ix.F
+	case "splat":
+		var es []string
+		for i := 0; i < ix.Vec; i++ {
+			es = append(es, fmt.Sprintf("%s %d", el, ix.Val))
+		}
+		v = "<" + strings.Join(es, ", ") + ">"
+	case "nonsplat":
+		var es []string
+		for i := 0; i < ix.Vec; i++ {
+			es = append(es, fmt.Sprintf("%s %d", el, i))
+		}
+		v = "<" + strings.Join(es, ", ") + ">"
+	case "cexpr":
+		if ix.Vec > 0 {
+			var es []string
+			for i := 0; i < ix.Vec; i++ {
+				es = append(es, "i8* @h")
+			}
+			v = fmt.Sprintf("ptrtoint (<%d x i8*> <%s> to %s)", ix.Vec, strings.Join(es, ", "), ty)
+		} else {
+			v = fmt.Sprintf("ptrtoint (i8* @h to %s)", ty)
+		}
+	case "cexpr2":
+		v = fmt.Sprintf("add (%s ptrtoint (i8* @h to %s), %s 1)", ty, ty, ty)
+	case "ssa":
+		v = fmt.Sprintf("%%i%d", k)
+	default:
+		panic("index form " + ix.F)
+	}
+	s := ty + " " + v
+	if ix.IR {
+		s = "inrange " + s
+	}
+	return s
+}
+
+func (c *gcase) hasSSA() bool {
+	for _, ix := range c.Idxs {
+		if ix.F == "ssa" {
+			return true
+		}
+	}
+	return false
+}
+func (c *gcase) hasInRange() bool {
+	for _, ix := range c.Idxs {
+		if ix.IR {
+			return true
+		}
+	}
+	return false
+}
+func (c *gcase) anyVecIdx() bool {
+	for _, ix := range c.Idxs {
+		if ix.Vec > 0 {
+			return true
+		}
+	}
+	return false
+}
+func (c *gcase) basePtr() *tyutil.Term {
+	if c.Base.K == "vec" {
+		return c.Base.E
+	}
+	return c.Base
+}
+
+func (c *gcase) instOK() bool  { return !c.hasInRange() }
+func (c *gcase) cexprOK() bool { return !c.hasSSA() }
+func (c *gcase) aliasOK() bool { return c.cexprOK() && c.Base.K == "ptr" && !c.anyVecIdx() }
+
+func (c *gcase) key() string {
+	var b strings.Builder
+	b.WriteString(c.Elem.LL())
+	b.WriteString(" | ")
+	b.WriteString(c.Base.LL())
+	for k, ix := range c.Idxs {
+		b.WriteString(" , ")
+		s := ix.text(k)
+		if ix.F == "ssa" {
+			s = ix.typ().LL() + " %ssa"
+		}
+		b.WriteString(s)
+	}
+	return b.String()
+}
+
+// globalName is the name of the base global of element type number e in address space as.
+func globalName(e, as int) string { return fmt.Sprintf("g%d_%d", as, e) }
+
+// baseConst renders the base operand of the constant-expression form.
+func (c *gcase) baseConst(e int) string {
+	p := c.basePtr()
+	g := "@" + globalName(e, p.AS)
+	if c.Base.K == "ptr" {
+		return g
+	}
+	if c.Base.SC {
+		return "undef"
+	}
+	var es []string
+	for i := 0; i < c.Base.N; i++ {
+		es = append(es, p.LL()+" "+g)
+	}
+	return "<" + strings.Join(es, ", ") + ">"
+}
+
+func (c *gcase) idxText() string {
+	var b strings.Builder
+	for k, ix := range c.Idxs {
+		b.WriteString(", ")
+		b.WriteString(ix.text(k))
+	}
+	return b.String()
+}
+
+// instUnit renders a function whose instruction result is stored at the required type.
+func (c *gcase) instUnit(name string) string {
+	w := c.Want.LL()
+	params := []string{c.Base.LL() + " %b", w + "* %p"}
+	for k, ix := range c.Idxs {
+		if ix.F == "ssa" {
+			params = append(params, fmt.Sprintf("%s %%i%d", ix.typ().LL(), k))
+		}
+	}
+	return fmt.Sprintf("define void @%s(%s) {\n  %%r = getelementptr %s, %s %%b%s\n  store %s %%r, %s* %%p\n  ret void\n}\n",
+		name, strings.Join(params, ", "), c.Elem.LL(), c.Base.LL(), c.idxText(), w, w)
+}
+
+// cexprUnit renders a function that stores the constant expression at the required type.
+func (c *gcase) cexprUnit(name string, e int) string {
+	w := c.Want.LL()
+	return fmt.Sprintf("define void @%s(%s* %%p) {\n  store %s getelementptr (%s, %s %s%s), %s* %%p\n  ret void\n}\n",
+		name, w, w, c.Elem.LL(), c.Base.LL(), c.baseConst(e), c.idxText(), w)
+}
+
+// aliasUnit renders an alias whose aliasee is the constant expression.
+func (c *gcase) aliasUnit(name string, e int) string {
+	return fmt.Sprintf("@%s = alias %s, getelementptr (%s, %s %s%s)\n", name, c.Want.E.LL(), c.Elem.LL(), c.Base.LL(), c.baseConst(e), c.idxText())
+}
+
+// --- the run -------------------------------------------------------------------
+
+type env struct {
+	uni     tyutil.Universe
+	elems   []*tyutil.Term // distinct element types, index = number in global names
+	elemNo  map[string]int
+	prelude string // type definitions, @h and the base globals of every element type
+}
+
+func newEnv(uni tyutil.Universe, cases []*gcase) *env {
+	e := &env{uni: uni, elemNo: map[string]int{}}
+	for _, c := range cases {
+		k := c.Elem.LL()
+		if _, ok := e.elemNo[k]; !ok {
+			e.elemNo[k] = len(e.elems)
+			e.elems = append(e.elems, c.Elem)
+		}
+	}
+	var b strings.Builder
+	b.WriteString(uni.Defs())
+	b.WriteString("@h = global i8 0\n")
+	for i, t := range e.elems {
+		b.WriteString(e.globals(i, t))
+	}
+	e.prelude = b.String()
+	return e
+}
+
+func (e *env) globals(i int, t *tyutil.Term) string {
+	return fmt.Sprintf("@%s = global %s zeroinitializer\n@%s = addrspace(1) global %s zeroinitializer\n", globalName(i, 0), t.LL(), globalName(i, 1), t.LL())
+}
+
+// small is the prelude for one case (what the library parses).
+func (e *env) small(c *gcase) string {
+	i := e.elemNo[c.Elem.LL()]
+	return e.uni.Defs() + "@h = global i8 0\n" + e.globals(i, c.Elem)
+}
+
+type result struct {
+	c     *gcase
+	out   map[string]tyutil.Outcome
+	class map[string]string
+}
+
+// objects builds the library operands of a case.
+type objects struct {
+	b      *tyutil.Builder
+	h      *ir.Global
+	g      [2]*ir.Global
+	elem   types.Type
+	base   types.Type
+	baseV  value.Value
+	baseC  constant.Constant
+	idxV   []value.Value
+	idxC   []constant.Constant
+	shimIx []verifshim.GepIndex
+}
+
+func (e *env) objects(c *gcase) *objects {
+	o := &objects{b: tyutil.NewBuilder(e.uni, false)}
+	o.elem = o.b.Type(c.Elem)
+	o.base = o.b.Type(c.Base)
+	o.h = ir.NewGlobalDef("h", constant.NewInt(types.I8, 0))
+	i := e.elemNo[c.Elem.LL()]
+	for as := 0; as < 2; as++ {
+		g := &ir.Global{ContentType: o.elem, Init: constant.NewZeroInitializer(o.elem), AddrSpace: types.AddrSpace(as)}
+		g.SetName(globalName(i, as))
+		g.Type()
+		o.g[as] = g
+	}
+	o.baseV = ir.NewParam("b", o.base)
+	p := c.basePtr()
+	switch {
+	case c.Base.K == "ptr":
+		o.baseC = o.g[p.AS]
+	case c.Base.SC:
+		o.baseC = constant.NewUndef(o.base)
+	default:
+		var es []constant.Constant
+		for k := 0; k < c.Base.N; k++ {
+			es = append(es, o.g[p.AS])
+		}
+		o.baseC = constant.NewVector(o.base.(*types.VectorType), es...)
+	}
+	for k, ix := range c.Idxs {
+		ty := o.b.Type(ix.typ())
+		it := types.NewInt(uint64(ix.W))
+		var cst constant.Constant
+		switch ix.F {
+		case "int":
+			cst = constant.NewInt(it, int64(ix.Val))
+		case "zeroinit":
+			cst = constant.NewZeroInitializer(ty)
+		case "undef":
+			cst = constant.NewUndef(ty)
+		case "poison":
+			cst = constant.NewPoison(ty)
+		case "splat", "nonsplat":
+			var es []constant.Constant
+			for n := 0; n < ix.Vec; n++ {
+				v := int64(ix.Val)
+				if ix.F == "nonsplat" {
+					v = int64(n)
+				}
+				es = append(es, constant.NewInt(it, v))
+			}
+			cst = constant.NewVector(ty.(*types.VectorType), es...)
+		case "cexpr":
+			if ix.Vec > 0 {
+				var es []constant.Constant
+				for n := 0; n < ix.Vec; n++ {
+					es = append(es, o.h)
+				}
+				cst = constant.NewPtrToInt(constant.NewVector(types.NewVector(uint64(ix.Vec), types.I8Ptr), es...), ty)
+			} else {
+				cst = constant.NewPtrToInt(o.h, ty)
+			}
+		case "cexpr2":
+			cst = constant.NewAdd(constant.NewPtrToInt(o.h, ty), constant.NewInt(it, 1))
+		case "ssa":
+		default:
+			panic("index form " + ix.F)
+		}
+		if ix.F == "ssa" {
+			o.idxV = append(o.idxV, ir.NewParam(fmt.Sprintf("i%d", k), ty))
+			o.idxC = append(o.idxC, nil)
+		} else {
+			o.idxV = append(o.idxV, cst)
+			if ix.IR {
+				w := constant.NewIndex(cst)
+				w.InRange = true
+				cst = w
+			}
+			o.idxC = append(o.idxC, cst)
+		}
+		// what a correct classifier hands to the walker (the index record has no scalability)
+		gi := verifshim.GepIndex{VectorLen: uint64(ix.Vec)}
+		switch ix.F {
+		case "int", "splat":
+			gi.HasVal, gi.Val = true, int64(ix.Val)
+		case "zeroinit":
+			gi.HasVal, gi.Val = true, 0
+		}
+		o.shimIx = append(o.shimIx, gi)
+	}
+	return o
+}
+
+func firstInst(m *ir.Module) (ir.Instruction, error) {
+	if len(m.Funcs) != 1 || len(m.Funcs[0].Blocks) != 1 || len(m.Funcs[0].Blocks[0].Insts) < 1 {
+		return nil, fmt.Errorf("unexpected shape of the parsed module")
+	}
+	return m.Funcs[0].Blocks[0].Insts[0], nil
+}
+
+// evaluate runs every implementation on the case. valid says which rendered
+// forms llvm-as accepted (inst, cexpr, alias).
+func (e *env) evaluate(c *gcase, valid [3]bool) *result {
+	r := &result{c: c, out: map[string]tyutil.Outcome{}, class: map[string]string{}}
+	na := tyutil.Outcome{NA: true}
+	for _, im := range impls {
+		r.out[im] = na
+	}
+	i := e.elemNo[c.Elem.LL()]
+	var o *objects
+	if msg, p := mbt.Guard(func() { o = e.objects(c) }); p {
+		for _, im := range impls {
+			r.out[im] = tyutil.Outcome{Panic: "building operands: " + msg}
+		}
+	} else {
+		if valid[0] {
+			// parser, instruction
+			var inst *ir.InstGetElementPtr
+			r.out["asm.inst"] = tyutil.Observe(func() (types.Type, error) {
+				m, err := asm.ParseString("c07.ll", e.small(c)+c.instUnit("f"))
+				if err != nil {
+					return nil, err
+				}
+				in, err := firstInst(m)
+				if err != nil {
+					return nil, err
+				}
+				g, ok := in.(*ir.InstGetElementPtr)
+				if !ok {
+					return nil, fmt.Errorf("parsed instruction is %T", in)
+				}
+				inst = g
+				return g.Typ, nil
+			})
+			if inst != nil {
+				r.out["ir.inst(parsed)"] = tyutil.Observe(func() (types.Type, error) {
+					inst.Typ = nil
+					return inst.Type(), nil
+				})
+			}
+			r.out["ir.NewGetElementPtr"] = tyutil.Observe(func() (types.Type, error) {
+				return ir.NewGetElementPtr(o.elem, o.baseV, o.idxV...).Type(), nil
+			})
+		}
+		if valid[1] {
+			r.out["asm.cexpr"] = tyutil.Observe(func() (types.Type, error) {
+				m, err := asm.ParseString("c07.ll", e.small(c)+c.cexprUnit("f", i))
+				if err != nil {
+					return nil, err
+				}
+				in, err := firstInst(m)
+				if err != nil {
+					return nil, err
+				}
+				st, ok := in.(*ir.InstStore)
+				if !ok {
+					return nil, fmt.Errorf("parsed instruction is %T", in)
+				}
+				return st.Src.Type(), nil
+			})
+			r.out["constant.NewGetElementPtr"] = tyutil.Observe(func() (types.Type, error) {
+				return constant.NewGetElementPtr(o.elem, o.baseC, o.idxC...).Type(), nil
+			})
+		}
+		if valid[2] {
+			r.out["asm.alias"] = tyutil.Observe(func() (types.Type, error) {
+				m, err := asm.ParseString("c07.ll", e.small(c)+c.aliasUnit("a", i))
+				if err != nil {
+					return nil, err
+				}
+				if len(m.Aliases) != 1 {
+					return nil, fmt.Errorf("parsed module has %d aliases", len(m.Aliases))
+				}
+				return m.Aliases[0].Typ, nil
+			})
+		}
+		if valid[0] || valid[1] {
+			r.out["gep.ResultType"] = tyutil.Observe(func() (types.Type, error) {
+				return verifshim.GepResultType(o.elem, o.base, o.shimIx), nil
+			})
+		}
+	}
+	for _, im := range impls {
+		r.class[im] = r.out[im].Class(c.Want)
+	}
+	return r
+}
+
+// --- minimisation and signatures ------------------------------------------------
+
+func baseShape(b *tyutil.Term) string {
+	p := b
+	s := "ptr"
+	if b.K == "vec" {
+		p = b.E
+		s = "<N x ptr>"
+		if b.SC {
+			s = "<vscale x N x ptr>"
+		}
+	}
+	if p.AS != 0 {
+		s += ".as1"
+	}
+	return s
+}
+
+func idxShape(ix idx) string {
+	s := ix.F + ":" + ix.typ().Abstract()
+	if ix.IR {
+		s = "inrange " + s
+	}
+	return s
+}
+
+// through lists the kinds of the aggregates the indices after the first step into.
+func (e *env) through(c *gcase) []string {
+	var out []string
+	t := c.Elem
+	for k, ix := range c.Idxs {
+		if k == 0 {
+			continue
+		}
+		r := t
+		if r.K == "named" {
+			b := e.uni[r.NM]
+			r = tyutil.Struct(b.PK, b.FS...)
+		}
+		switch r.K {
+		case "struct":
+			out = append(out, "struct")
+			if ix.Val >= 0 && ix.Val < len(r.FS) {
+				t = r.FS[ix.Val]
+			}
+		case "arr", "vec":
+			out = append(out, r.K)
+			t = r.E
+		default:
+			out = append(out, "?")
+		}
+	}
+	return out
+}
+
+func (e *env) shape(c *gcase) string {
+	var is []string
+	for _, ix := range c.Idxs {
+		is = append(is, idxShape(ix))
+	}
+	s := "base=" + baseShape(c.Base) + " idx=[" + strings.Join(is, ", ") + "]"
+	if th := e.through(c); len(th) > 0 {
+		s += " through=[" + strings.Join(th, ",") + "]"
+	}
+	return s
+}
+
+// neighbours lists the simpler cases next to c, plainest first: plain base,
+// one index dropped, one index replaced by the plainest form.
+func neighbours(c *gcase) []*gcase {
+	var out []*gcase
+	if !(c.Base.K == "ptr" && c.Base.AS == 0) {
+		n := *c
+		n.Base = tyutil.Ptr(c.Elem, 0)
+		out = append(out, &n)
+		if c.Base.K == "vec" && c.Base.E.AS != 0 { // keep the vector, drop the address space
+			n2 := *c
+			n2.Base = tyutil.Vec(c.Base.SC, c.Base.N, tyutil.Ptr(c.Elem, 0))
+			out = append(out, &n2)
+		}
+		if c.Base.K == "vec" { // keep the address space, drop the vector
+			n3 := *c
+			n3.Base = tyutil.Ptr(c.Elem, c.Base.E.AS)
+			out = append(out, &n3)
+		}
+	}
+	for k := len(c.Idxs) - 1; k >= 0; k-- {
+		n := *c
+		n.Idxs = append(append([]idx{}, c.Idxs[:k]...), c.Idxs[k+1:]...)
+		out = append(out, &n)
+	}
+	plain := []idx{{F: "int", W: 64, Val: 0}, {F: "int", W: 32, Val: 0}, {F: "int", W: 32, Val: 1}}
+	for k := len(c.Idxs) - 1; k >= 0; k-- {
+		for _, p := range plain {
+			if c.Idxs[k] == p {
+				break // already at least as plain
+			}
+			n := *c
+			n.Idxs = append([]idx{}, c.Idxs...)
+			n.Idxs[k] = p
+			out = append(out, &n)
+		}
+	}
+	return out
+}
+
+// minimise walks from a failing case to a neighbouring case of the enumerated
+// set that fails in the same implementation with the same difference class,
+// until there is none.
+func minimise(table map[string]*result, r *result, im string) *result {
+	cls := r.class[im]
+	cur := r
+	for steps := 0; steps < 20; steps++ {
+		moved := false
+		for _, n := range neighbours(cur.c) {
+			if nr, ok := table[n.key()]; ok && nr != cur && nr.class[im] == cls {
+				cur, moved = nr, true
+				break
+			}
+		}
+		if !moved {
+			break
+		}
+	}
+	return cur
+}
+
+func load(rep *mbt.Report, tier string) (tyutil.Universe, []*gcase) {
+	t := mbt.MustTLC(mbt.TLCOpts{Spec: "TypesGep", Cfg: "TypesGep.cfg", Workers: 1, Consts: map[string]string{"Tier": `"` + tier + `"`}, Timeout: 15 * time.Minute})
+	defer t.Cleanup()
+	if len(t.Violated) > 0 {
+		mbt.Infra("GepResultType of Types.tla violates its shape invariants %v: specification error\n%s", t.Violated, mbt.Truncate(t.Output, 3000))
+	}
+	rep.AddTLC(t)
+	recs, err := mbt.ReadNDJSON[gcase](filepath.Join(t.Dir, "gep_cases.ndjson"))
+	if err != nil {
+		mbt.Infra("%v", err)
+	}
+	var uni tyutil.Universe
+	var cases []*gcase
+	for k := range recs {
+		if recs[k].Defs != nil {
+			uni = tyutil.Universe(recs[k].Defs)
+			continue
+		}
+		cases = append(cases, &recs[k])
+	}
+	if uni == nil || len(cases) < 1000 {
+		mbt.Infra("generator produced %d cases", len(cases))
+	}
+	if int64(len(cases)) != t.Distinct-int64(countStages(cases)) {
+		rep.Note("TLC reported %d distinct states for %d cases", t.Distinct, len(cases))
+	}
+	return uni, cases
+}
+
+func countStages(cases []*gcase) int {
+	el := map[string]bool{}
+	eb := map[string]bool{}
+	for _, c := range cases {
+		el[c.Elem.LL()] = true
+		eb[c.Elem.LL()+"|"+c.Base.LL()] = true
+	}
+	return 1 + len(el) + len(eb)
+}
+
+// process validates the cases with llvm-as, runs the implementations and reports.
+func process(rep *mbt.Report, uni tyutil.Universe, cases []*gcase, minimiseSigs bool) {
+	e := newEnv(uni, cases)
+	// (b) llvm-as: the result can be used at the required type
+	type unitRef struct{ c, form int }
+	var units []string
+	var refs []unitRef
+	for n, c := range cases {
+		i := e.elemNo[c.Elem.LL()]
+		if c.instOK() {
+			units = append(units, c.instUnit(fmt.Sprintf("fi%d", n)))
+			refs = append(refs, unitRef{n, 0})
+		}
+		if c.cexprOK() {
+			units = append(units, c.cexprUnit(fmt.Sprintf("fc%d", n), i))
+			refs = append(refs, unitRef{n, 1})
+		}
+		if c.aliasOK() {
+			units = append(units, c.aliasUnit(fmt.Sprintf("a%d", n), i))
+			refs = append(refs, unitRef{n, 2})
+		}
+	}
+	ok, diag := tyutil.BatchAccept(e.prelude, units, 250)
+	valid := make([][3]bool, len(cases))
+	discards := 0
+	discardByForm := map[string]int{}
+	for u, r := range refs {
+		if ok[u] {
+			valid[r.c][r.form] = true
+			continue
+		}
+		discards++
+		form := []string{"instruction", "constant expression", "alias"}[r.form]
+		discardByForm[form]++
+		if discards <= 8 {
+			rep.Note("spec/LLVM disagreement (discarded): llvm-as rejects the %s form of {%s}: %s", form, cases[r.c].key(), mbt.Truncate(diag[u], 200))
+		}
+	}
+	rep.Extra["llvm_validated_units"] = len(units) - discards
+	rep.Extra["llvm_discards"] = discards
+	rep.Extra["llvm_discards_by_form"] = discardByForm
+	if discards*50 > len(units) {
+		mbt.Infra("llvm-as rejects %d of %d rendered getelementptr uses (%s): GepResultType of Types.tla or the renderer disagrees with LLVM", discards, len(units), tyutil.Pct(discards, len(units)))
+	}
+	// (a)+(c) the library
+	results := make([]*result, len(cases))
+	llvmoracle.Parallel(len(cases), func(n int) { results[n] = e.evaluate(cases[n], valid[n]) })
+	table := map[string]*result{}
+	for _, r := range results {
+		table[r.c.key()] = r
+	}
+	perImpl := map[string]int{}
+	failing := map[string]int{}
+	sigCount := map[string]int{}
+	for _, r := range results {
+		nontrivial := len(r.c.Idxs) > 0
+		rep.Count(r.c.key(), nontrivial)
+		for _, im := range impls {
+			cls := r.class[im]
+			if cls == "n/a" {
+				continue
+			}
+			perImpl[im]++
+			rep.TracesValidated++
+			if cls == "=" {
+				continue
+			}
+			failing[im]++
+			m := r
+			if minimiseSigs {
+				m = minimise(table, r, im)
+			}
+			sig := fmt.Sprintf("C07|%s|%s|%s", im, cls, e.shape(m.c))
+			sigCount[sig]++
+			rep.Fail(mbt.Failure{Signature: sig,
+				What: fmt.Sprintf("%s: getelementptr {%s} must have type %s, got %s (minimal failing shape {%s}: required %s, got %s)",
+					im, r.c.key(), r.c.Want.LL(), r.out[im], m.c.key(), m.c.Want.LL(), m.out[im]),
+				Case: map[string]interface{}{"impl": im, "defs": uni, "case": r.c, "minimal": m.c}})
+		}
+	}
+	rep.Extra["evaluated_per_implementation"] = perImpl
+	rep.Extra["failing_per_implementation"] = failing
+	rep.Extra["failure_signatures"] = sigCount
+}
+
 // Run is the C07 check.
-func Run(tier, replay string) { mbt.Infra("check C07 is not built yet") }
+func Run(tier, replay string) {
+	log.SetOutput(io.Discard)
+	rep := mbt.NewReport("C07", tier, "model_checking")
+	rep.Rule = "getelementptr cases (element type x base x non-empty index list) enumerated by TLC with the required result type, validated by llvm-as and compared with seven observation points of the library"
+	llvmoracle.Require()
+	rng := rand.New(rand.NewSource(mbt.Seed()))
+
+	if replay != "" {
+		runReplay(rep, replay)
+		rep.Finish()
+	}
+
+	// the walker as implemented must be refuted by the required function (deviation switch)
+	t := mbt.MustTLC(mbt.TLCOpts{Spec: "TypesGep", Cfg: "TypesGepDeviation.cfg", Continue: false})
+	if len(t.Violated) == 0 {
+		mbt.Infra("TypesGepDeviation: the as-implemented walker agrees with the required function on the whole model; the deviation switch is dead")
+	}
+	rep.Extra["as_implemented_refuted_by"] = t.Violated
+	t.Cleanup()
+
+	uni, cases := load(rep, tier)
+	// seeded order (the set is evaluated completely; the seed picks the samples)
+	perm := rng.Perm(len(cases))
+	for _, k := range perm[:4] {
+		rep.Sample(map[string]interface{}{"gep": cases[k].key(), "required_type": cases[k].Want.LL()})
+	}
+	process(rep, uni, cases, true)
+	rep.Exhaustive = true
+	rep.Explanation = "exhaustive over the finite sets of TypesGep.tla for this tier (element types, bases, all index lists of length <= 2 over every index form, length 3 over the plain forms); index lists longer than 3 and element types outside Elems are not covered"
+	rep.Assumptions = []string{
+		"llvm-as 14 accepting `store <required type> %r` validates the required type; the renderer (harness/props/c07) spells the case as the specification means it",
+		"TLC's enumeration of TypesGep.tla is complete for the constants of the tier",
+	}
+	rep.Finish()
+}
+
+func runReplay(rep *mbt.Report, path string) {
+	type rf struct {
+		Failures []struct {
+			Case struct {
+				Defs map[string]*tyutil.Body `json:"defs"`
+				Case *gcase                  `json:"case"`
+				Min  *gcase                  `json:"minimal"`
+			} `json:"case"`
+		} `json:"failures"`
+	}
+	var one rf
+	if e := mbt.ReadJSON(path, &one); e != nil {
+		mbt.Infra("replay %s: %v", path, e)
+	}
+	var cases []*gcase
+	var uni tyutil.Universe
+	seen := map[string]bool{}
+	for _, f := range one.Failures {
+		if f.Case.Case == nil {
+			continue
+		}
+		uni = tyutil.Universe(f.Case.Defs)
+		for _, c := range []*gcase{f.Case.Case, f.Case.Min} {
+			if c != nil && c.Want != nil && !seen[c.key()] {
+				seen[c.key()] = true
+				cases = append(cases, c)
+			}
+		}
+	}
+	if len(cases) == 0 {
+		mbt.Infra("replay %s: no case", path)
+	}
+	sort.Slice(cases, func(i, j int) bool { return cases[i].key() < cases[j].key() })
+	process(rep, uni, cases, true)
+}
